@@ -100,40 +100,76 @@ Definition check_gens (c : gens_case) : N :=
   else gens_model t K (d0) gs.
 
 (* ---------------------------------------------------------------- crashes inside checkpoint() *)
-(* (payload table, K, calls before the checkpoint, their results, what the live store showed when
-    checkpoint() was called, the log file at that time, the marker record checkpoint() appended,
-    recovery observations per (stage, offset):
-      stage 0 = snapshot not yet written          (no/old snapshot, whole log)
-      stage 1 = snapshot written                  (new snapshot, whole log)
-      stage 2 = marker record being appended      (new snapshot, log + `offset` bytes of the marker)
-      stage 3 = log truncated                     (new snapshot, empty log)
-    then one generation of calls after the checkpoint, crashed at every byte, recovered WITH the snapshot) *)
+(* A crash IMAGE is what was on disk at some instant: the log file bytes and which snapshot file
+   was in place (0 = none, 1 = the one of the previous complete checkpoint, 2 = the one this
+   checkpoint() writes).  The harness takes an image when checkpoint() is called, at every hook
+   point reached inside it (whatever their order), and when it returns; between two images whose
+   log grew it also takes every byte in between.  Each image is recovered.
+   (payload table, K,
+    calls before a previous COMPLETE checkpoint (None = there was none),
+    calls since then: results, live observations after 0..n of them, logical end offset and ack
+    offset of each, the log as it was ON DISK when checkpoint() was called, what was appended to
+    it on disk up to and including the marker record ([] if the marker never reached the disk),
+    images: (log bytes, snapshot code, recovery observations per offset range),
+    then one generation of calls after the checkpoint, crashed at every byte, recovered WITH the
+    new snapshot) *)
+Definition image := (list byte * N * list (N * N * N * option obs))%type.
 Definition ckpt_case :=
-  (tab * N * list op * list bool * obs * list byte * list byte * list (N * N * option obs) * gen_rec)%type.
+  (tab * N * option (list op) * list op * list bool * list obs * list N * list N * list byte * list byte
+   * list image * gen_rec)%type.
 
-(* "taking a checkpoint never loses or resurrects data, wherever a crash falls inside it":
-   every recovery from a crash state inside checkpoint() shows exactly what the live store showed *)
+(* "taking a checkpoint never loses or resurrects data, wherever a crash falls inside it", and
+   the general clause: a recovery from any crash image shows a state the live store went through
+   since the previous checkpoint (i.e. the state after some prefix of the calls) that includes
+   every acknowledged call -- under immediate sync that is exactly what the live store showed
+   when checkpoint() was called: nothing lost, nothing resurrected *)
+Definition NEVER : N := 1000000000000000000.
+Definition image_oracle (lives : list obs) (acks : list N) (im : image) : bool :=
+  let '(w, sc, crashes) := im in
+  forallb (fun r => let '(a, z, stp, ro) := r in
+     forallb (fun k =>
+       match ro with
+       | None => false
+       | Some o =>
+           (* acknowledged = fsynced: inside the surviving log prefix, or -- once the new snapshot
+              is in place -- every call that had been fsynced when checkpoint() was called *)
+           let n_acked := if sc =? 2 then length (filter (fun x => x <? NEVER) acks) else acked acks k in
+           existsb (obs_eqb o) (skipn n_acked lives)
+       end) (range a z stp)) crashes.
 Definition ckpt_oracle (c : ckpt_case) : bool :=
-  let '(t, K, ops1, res1, live, w, m, stages, g2) := c in
-  forallb (fun x => let '(_, _, ro) := x in option_eqb obs_eqb ro (Some live)) stages && gen_oracle g2.
+  let '(t, K, pre, ops1, res1, lives, ends, acks, wdisk, m, images, g2) := c in
+  forallb (image_oracle lives acks) images && gen_oracle g2.
+
+Fixpoint is_prefix (a b : list byte) : bool :=
+  match a, b with
+  | [], _ => true
+  | x :: a', y :: b' => N.eqb x y && is_prefix a' b'
+  | _, [] => false
+  end.
 
 Definition check_ckpt (c : ckpt_case) : N :=
-  let '(t, K, ops1, res1, live, w, m, stages, g2) := c in
+  let '(t, K, pre, ops1, res1, lives, ends, acks, wdisk, m, images, g2) := c in
   if negb (ckpt_oracle c) then V_VIOLATION
   else
-    let '(d1, oks, os, es) := run_obs t K d0 ops1 in
+    (* the state the previous complete checkpoint left (or a fresh store) *)
+    let da := match pre with
+              | Some ops0 => fst (step (ser_of t) crc32u the_cfg (run (ser_of t) crc32u the_cfg d0 ops0) Ckpt)
+              | None => d0
+              end in
+    let '(d1, oks, os, es) := run_obs t K da ops1 in
     if negb (list_eqb Bool.eqb oks res1) then V_MISMATCH
-    else if negb (obs_eqb (observe K (st d1)) live) then V_MISMATCH
-    else if negb (list_eqb N.eqb (file d1) w) then V_MISMATCH
-    else if negb (list_eqb N.eqb (log_bytes (ser_of t) crc32u true [Checkpoint (ctr d1)]) m) then V_MISMATCH
+    else if negb (list_eqb obs_eqb (observe K (st da) :: os) lives) then V_MISMATCH
+    else if negb (list_eqb N.eqb es ends) then V_MISMATCH
+    else if negb (is_prefix wdisk (file d1)) then V_MISMATCH
+    else if negb (match m with [] => true
+                  | _ => list_eqb N.eqb (file d1 ++ log_bytes (ser_of t) crc32u true [Checkpoint (ctr d1)]) (wdisk ++ m) end)
+         then V_MISMATCH
     else if negb (gen_ckpt_order_ok) then V_MISMATCH
-    else if negb (forallb (fun x =>
-                    let '(stage, off, ro) := x in
-                    let sn := Some (st d1) in
-                    let mo :=
-                      if stage =? 0 then rec_obs t K (snap d1) w (N.of_nat (length w))
-                      else if stage =? 1 then rec_obs t K sn w (N.of_nat (length w))
-                      else if stage =? 2 then rec_obs t K sn (w ++ m) (N.of_nat (length w) + off)
-                      else rec_obs t K sn [] 0 in
-                    option_eqb obs_eqb mo ro) stages) then V_MISMATCH
+    else if negb (forallb (fun im : image =>
+                    let '(w, sc, crashes) := im in
+                    let sn := if sc =? 0 then None else if sc =? 1 then snap da else Some (st d1) in
+                    (sc <? 3) &&
+                    forallb (fun r => let '(a, z, stp, ro) := r in
+                       forallb (fun k => option_eqb obs_eqb (rec_obs t K sn w k) ro) (range a z stp)) crashes)
+                    images) then V_MISMATCH
     else gens_model t K (fst (step (ser_of t) crc32u the_cfg d1 Ckpt)) [g2].
